@@ -37,6 +37,8 @@ abbrev runAll := MsiProofs.Lifecycle.runAll
 
 /-- an accepted `create_table` keeps every invariant and extends the catalog by the new definition -/
 def createTable_full := @MsiProofs.CreateTable.createTable_full
+/-- an accepted `drop_table` keeps every invariant and removes the definition from the catalog -/
+def dropTable_full := @MsiProofs.DropTable.dropTable_full
 /-- the state `Package::create` builds satisfies every invariant -/
 def created_full := @MsiProofs.Created.created_full
 /-- a successful save keeps every invariant -/
@@ -69,17 +71,21 @@ def demoCols : List Column :=
   [{ Catalog.mkCol "Id" .int32 with isPrimaryKey := true }, { Catalog.mkCol "Text" (.str 20) with isNullable := true }]
 
 /-- non-vacuity: a history with an accepted `create_table`, an accepted insert, a refused insert
-(duplicate key) and a delete is admissible on the created package -/
+(duplicate key), a delete, an accepted `drop_table` and a refused one (table gone) is admissible on the created package -/
 theorem demo_admissible : Admissible demoPkg
     [.create "Demo".toList demoCols,
      .dml (.insert "Demo".toList [[.int 7, .str "seven".toList], [.int 8, .null]]),
      .dml (.insert "Demo".toList [[.int 7, .null]]),
-     .dml (.delete "Demo".toList none)] := by
-  refine ⟨Or.inr ?_, ?_, ?_, ?_, trivial⟩
+     .dml (.delete "Demo".toList none),
+     .drop "Demo".toList,
+     .drop "Demo".toList] := by
+  refine ⟨Or.inr ?_, ?_, ?_, ?_, Or.inr ?_, Or.inl (Or.inr (Or.inr ?_)), trivial⟩
   · decide +kernel
   · show MsiProofs.CatalogSync.isCatalogName "Demo".toList = false; decide
   · show MsiProofs.CatalogSync.isCatalogName "Demo".toList = false; decide
   · show MsiProofs.CatalogSync.isCatalogName "Demo".toList = false; decide
+  · decide +kernel
+  · decide +kernel
 
 /-- and the accepted calls really are accepted there -/
 theorem demo_accepted :
